@@ -294,7 +294,7 @@ class Interp:
                     finally:
                         self.self_obj = saved
                 raise ShapeError(f'stand-in {base.kind} has no method `{f.attr}`')
-            if isinstance(base, (list, dict, set, tuple)) and f.attr in ('append', 'extend', 'get', 'items', 'keys', 'values', 'add', 'copy', 'index', 'count'):
+            if isinstance(base, (list, dict, set, tuple)) and f.attr in ('append', 'extend', 'get', 'items', 'keys', 'values', 'add', 'copy', 'index', 'count', 'pop', 'discard', 'remove', 'update', 'setdefault'):
                 return getattr(base, f.attr)(*args, **kwargs)
             raise ShapeError(f'call `{ast.unparse(f)}` has no table reading')
         raise ShapeError(f'call `{ast.unparse(k)[:60]}` not read')
